@@ -61,6 +61,20 @@ def cassegrain(R1, fno1, dfrac, p, q):
                       dict(R=R2, k=-(e * e), mat="mirror", t=R2 / (1 - e), el=("conic_mirror", p, q))]}
 
 
+def convex_paraboloid_relay(R1, fno1, dfrac, p, q):
+    """Convex paraboloid (collimated light meets its convex side: virtual focus R/2 behind it)
+    followed by a concave ellipsoid (k = -(p/q)^2, p < q) whose far focus is that virtual focus
+    and whose near focus is the real image."""
+    R1 = abs(R1)
+    f1 = R1 / 2
+    e = p / q
+    d = dfrac * f1
+    R2 = (1 - e) * (f1 + d)
+    return {"fam": "convex_paraboloid", "obj": INF, "stop": 1, "ap": ("EPD", f1 / fno1),
+            "surfs": [dict(R=R1, k=-1.0, mat="mirror", t=-d, el=("conic_mirror", 1, 1)),
+                      dict(R=R2, k=-(e * e), mat="mirror", t=R2 / (1 + e), el=("conic_mirror", p, q))]}
+
+
 def _sag(R, e, h):
     return h * h / (R * (1 + math.sqrt(1 - (1 - e * e) * h * h / (R * R))))
 
